@@ -191,6 +191,29 @@ get_sizeof() const {
  */
 void CPPConstType::
 output(std::ostream &out, int indent_level, CPPScope *scope, bool complete) const {
+  // A const pointer that (through any further pointers) leads to a function or
+  // an array is written with a parenthesised declarator, "int (*const)[3]";
+  // the qualifier belongs next to the '*', not after the closing bracket.
+  CPPType *target = _wrapped_around;
+  bool is_pointer = false;
+  while (target != nullptr) {
+    if (target->as_pointer_type() != nullptr) {
+      is_pointer = true;
+      target = target->as_pointer_type()->_pointing_at;
+    } else if (is_pointer && target->as_const_type() != nullptr) {
+      target = target->as_const_type()->_wrapped_around;
+    } else {
+      break;
+    }
+  }
+  if (is_pointer && target != nullptr &&
+      (target->as_function_type() != nullptr ||
+       target->as_array_type() != nullptr)) {
+    _wrapped_around->output_instance(out, indent_level, scope, complete,
+                                     "const", "");
+    return;
+  }
+
   _wrapped_around->output(out, indent_level, scope, complete);
   out << " const";
 }
